@@ -643,9 +643,10 @@ def clampSource (p : Policy) (c : Prefix) : Prefix :=
   c.withBits (min c.bits (if c.v6 then p.forwardV6 else p.forwardV4))
 
 /-- `ecs.ReadResponseScope`: the authority's SCOPE over the address it echoes
-(the forwarded source); SCOPE 0 means "global". -/
+(the forwarded source); SCOPE 0 means "global", a SCOPE longer than the address is
+unusable (`addr.Prefix` fails; the codec refuses such an option on the wire anyway). -/
 def responseScope (source : Prefix) (scopeBits : Nat) : Scope :=
-  if scopeBits = 0 then none else some (source.withBits scopeBits)
+  if scopeBits = 0 ∨ scopeBits > 8 * source.addr.length then none else some (source.withBits scopeBits)
 
 /-- `Policy.ClampScope`: never narrower than SOURCE allows (RFC 7871 §7.1.2),
 never narrower than the operator's per-family floor. -/
@@ -667,7 +668,7 @@ def admitScope (p : Policy) (client : Scope) (scopeBits : Option Nat) : Scope :=
 
 /-- `ResponseWriter.WriteMsg` for a cacheable answer: key from the response's own
 question and CD bit and the clamped scope; the entry carries the same scope. -/
-def admit (H : Bytes → UInt64) (p : Policy) (s : AStore) (id : Nat) (name : Bytes) (qtype qclass : UInt16)
+def admitAnswer (H : Bytes → UInt64) (p : Policy) (s : AStore) (id : Nat) (name : Bytes) (qtype qclass : UInt16)
     (cd : Bool) (client : Scope) (scopeBits : Option Nat) : AStore :=
   let sc := admitScope p client scopeBits
   setFromResponse s ((CacheKey.mk name qtype qclass cd sc).hash H) id name qtype qclass cd sc none
